@@ -77,7 +77,7 @@ TEXTS = {
   "level_note": "Covers the driver-level API (where Transform/Decode copy); bsonkit.Clone's documented sharing of binary payloads below that level is not flagged.",
  },
  "C14": {
-  "technique": "property-based testing (rapid): differential against an independent reference projection, byte-level non-mutation invariant of the stored document, idempotence of repeated projection, driver-level aliasing checks",
+  "technique": "property-based testing (rapid): differential against an independent reference projection, byte-level non-mutation invariant of the stored document, idempotence of repeated projection, driver-level aliasing checks; the thorough tier adds native coverage-guided go fuzzing of the same generators and oracle through rapid.MakeFuzz",
   "level_text": "Generated search over documents and projection documents with three oracles: byte-identity of the stored document before/after every projection (reference-free, also outside the agreement domain), agreement with an independently written reference projection (inclusion, exclusion, _id, $slice windows, $elemMatch first match, inclusion/exclusion mix rejected) up to field order, and driver-level checks that Find/FindOne/FindOneAnd* project identically, that decoded results can be overwritten without touching the store and that plain projections only return stored values. Sampling, not proof.",
   "level_note": "Trusts ref.Project/ref.Match inside DESIGN.md 8.3; field order of results is not compared.",
  },
@@ -87,17 +87,17 @@ TEXTS = {
   "level_note": "Trusts ref.Cmp/ref.Match/ref.Walk; empty-array and through-array sort keys are outside the order check (DESIGN.md 8.3).",
  },
  "C11": {
-  "technique": "property-based testing (rapid): differential against an independent reference for single operators, driver-level idempotence / modified-count / rejection-as-a-whole, operator-independence and positional-operator metamorphic relations",
+  "technique": "property-based testing (rapid): differential against an independent reference for single operators, driver-level idempotence / modified-count / rejection-as-a-whole, operator-independence and positional-operator metamorphic relations; the thorough tier adds native coverage-guided go fuzzing of the same generators and oracle through rapid.MakeFuzz",
   "level_text": "Generated search with four oracles: differential agreement of mongokit.Apply with an independently written reference of MongoDB's update semantics for every operator (type promotion, path creation, $push modifiers, $pull conditions), driver-level invariants (rejected update leaves bytes unchanged, ModifiedCount iff bytes changed, idempotence of the seven idempotent operators), equality of a combined update with its operators applied one at a time, and equality of $[] / $[id] with explicit element paths chosen by the reference matcher. Sampling, not proof.",
   "level_note": "Trusts the reference apply/match in harness/ref inside the declared domain; decimal arithmetic, $currentDate values and field order of newly created siblings are not compared (DESIGN.md 8.2).",
  },
  "C10": {
-  "technique": "property-based testing (rapid): differential against an independent reference matcher on the core domain, logical laws and metamorphic relations on the wide domain",
+  "technique": "property-based testing (rapid): differential against an independent reference matcher on the core domain, logical laws and metamorphic relations on the wide domain; the thorough tier adds native coverage-guided go fuzzing of the same generators and oracle through rapid.MakeFuzz",
   "level_text": "Generated search with three oracles: (1) differential agreement of mongokit.Match with an independently written reference matcher (MongoDB path semantics, type bracketing, NaN unordered, element-or-whole array semantics) inside the declared core domain; (2) the logical laws the property lists, checked reference-free on every generated input incl. nested arrays; (3) metamorphic invariance (unrelated field, wrapping, renaming). Hundreds of thousands (quick) to tens of millions (thorough) of cases; sampling, not proof.",
   "level_note": "Trusts the reference matcher (harness/ref) for the agreement part; the reference classifies what is outside its domain itself. Laws and metamorphic relations need no reference. Lazy validation of malformed operator arguments is not judged (outside the quantifier).",
  },
  "C12": {
-  "technique": "property-based testing (rapid): generated value triples vs an exact-rational reference order plus order laws",
+  "technique": "property-based testing (rapid): generated value triples vs an exact-rational reference order plus order laws; the thorough tier adds native coverage-guided go fuzzing of the same generators and oracle through rapid.MakeFuzz",
   "level_text": "Generated search over triples of BSON values with an explicit oracle: agreement of sign(Compare) with an independently written exact reference order (class ranks, numbers as math/big rationals with NaN < -Inf < finite < +Inf) and the order laws (reflexive, antisymmetric, transitive, equal values interchangeable, context invariance). It samples, it does not prove; the generator is biased to the boundaries the property names (2^53, 2^63, non-finite, late differences).",
   "level_note": "Trusts the reference comparator harness/ref/cmp.go (exact rational arithmetic), the mongo-driver BSON types and rapid. Document comparison follows the property's stated order (key, then value).",
  },
